@@ -190,4 +190,79 @@ theorem mem_leave_node (hW : WordSpecs P.C pb cb W) (hI : Inv W P pb cb s Q) (hM
   · intro _ h; simp [Loc.sMem] at h
 end
 
+theorem cnt_pos_of_mem (hi : s.agents[i]? = some a) (hm : a.loc.sMem = true) : 0 < cnt s a.lk a.qnode := by
+  unfold cnt
+  apply List.countP_pos_iff.mpr
+  exact ⟨a, List.mem_of_getElem? hi, by simp [isMem, hm]⟩
+
+/-- a granted shared member's group is the first one -/
+theorem member_first (hI : Inv W P pb cb s Q) (hi : s.agents[i]? = some a) (hm : a.loc.sMem = true)
+    {j : Nat} {G : Grp} (hj : (Q a.lk)[j]? = some G) (hnone : hmode s G = none) : j = 0 := by
+  have hwf := hI.wf a (List.mem_of_getElem? hi)
+  rcases Nat.eq_zero_or_pos j with h0 | hpos
+  · exact h0
+  · have := (hI.locks a.lk hwf.2.1).laterHeads j G hj hpos
+    rw [hnone] at this; simp at this
+
+theorem case_relS_cas_dec (hW : WordSpecs P.C pb cb W) (hI : Inv W P pb cb s Q) (hi : s.agents[i]? = some a)
+    (hloc : a.loc = .rel .S .cas) (hcur : lockW s a.lk = a.cur)
+    (hdec : ((a.cur - P.C.kSLock) &&& (P.C.kSMask ||| P.C.kSIXLock)) ≠ 0) :
+    Inv W P pb cb (setAgent (wr s (.lock a.lk) (a.cur - P.C.kSLock)) i { a with loc := .done }) Q := by
+  have hsm : a.loc.sMem = true := by simp [hloc, Loc.sMem]
+  obtain ⟨j, G, hj, hn, hmo⟩ := member_group hI hi hsm
+  simp only [MemOK, hloc, PhOK] at hmo
+  have hj0 := member_first hI hi hsm hj hmo.1
+  subst hj0
+  obtain ⟨hlast, hw⟩ := tail_word hW hI hi hj hn hcur hmo.2
+  rw [hmo.1] at hw
+  have hcp := cnt_pos_of_mem hi hsm
+  rw [← hn] at hcp
+  have hnl := hI.node_lt (mem_of_idx hj)
+  have hcl := hI.cnt_lt a.lk G.node
+  obtain ⟨c, hc⟩ : ∃ c, cnt s a.lk G.node = c + 1 := ⟨cnt s a.lk G.node - 1, by omega⟩
+  have hw' : a.cur = W G.node false false (c + 1) := by rw [hw, hc]; rfl
+  have hmore : c ≠ 0 := by
+    rw [hw'] at hdec
+    have := (hW.decS G.node false c hnl (by omega)).mp hdec
+    rcases this with h | h
+    · exact h
+    · cases h
+  have hM : MemLeave s Q i a G :=
+    { hi := hi, mem := hsm, first := hj, node := hn, noHead := hmo.1, more := by omega }
+  apply mem_leave_lock hW hI hM hlast
+  rw [hw', hc, hW.subS G.node false false c hnl (by omega)]
+  simp
+
+theorem case_relS_handoff_keep (hW : WordSpecs P.C pb cb W) (hI : Inv W P pb cb s Q) (hi : s.agents[i]? = some a)
+    (hloc : a.loc = .rel .S .handoff)
+    (hnl : ¬ ((nodeW s (ptrOf P a.nxt) &&& P.C.kLockMask) = P.C.kSLock)) :
+    Inv W P pb cb (setAgent (wr s (.node (ptrOf P a.nxt)) (nodeW s (ptrOf P a.nxt) - P.C.kSLock)) i
+      { a with loc := .done }) Q := by
+  have hwf := hI.wf a (List.mem_of_getElem? hi)
+  have hsm : a.loc.sMem = true := by simp [hloc, Loc.sMem]
+  obtain ⟨j, G, hj, hn, hmo⟩ := member_group hI hi hsm
+  simp only [MemOK, hloc, PhOK] at hmo
+  have hj0 := member_first hI hi hsm hj hmo.1
+  subst hj0
+  obtain ⟨hnone, G1, h1, hl1, hp1⟩ := hmo
+  have hsw := succ_word (W := W) hI hwf.2.1 hj h1 hl1
+  rw [hnone] at hsw
+  have hcp := cnt_pos_of_mem hi hsm
+  rw [← hn] at hcp
+  have hll := hI.link_lt a.lk 1
+  have hcl := hI.cnt_lt a.lk G.node
+  obtain ⟨c, hc⟩ : ∃ c, cnt s a.lk G.node = c + 1 := ⟨cnt s a.lk G.node - 1, by omega⟩
+  have hsw' : nodeW s G1.node = W (linkOf s (Q a.lk) 1) false false (c + 1) := by rw [hsw, hc]; rfl
+  have hmore : c ≠ 0 := by
+    intro h0
+    apply hnl
+    rw [hp1, hsw', h0]
+    exact (hW.lastS _ false false 1 hll hW.cbPos).mpr ⟨rfl, rfl, rfl⟩
+  have hM : MemLeave s Q i a G :=
+    { hi := hi, mem := hsm, first := hj, node := hn, noHead := hnone, more := by omega }
+  rw [hp1]
+  apply mem_leave_node hW hI hM h1 hl1
+  rw [hsw', hc, hW.subS _ false false c hll (by omega)]
+  simp
+
 end CppUtil.Mcs
